@@ -297,7 +297,7 @@ namespace Dune
     //! Matrix negation
     derived_type operator- () const
     {
-      MAT result;
+      MAT result = asImp();
       using idx_type = typename decltype(result)::size_type;
 
       for (idx_type i = 0; i < rows(); ++i)
